@@ -143,14 +143,14 @@ func (l *Loaded) globalInfoOf(g *ssa.Global) *globalInfo {
 		if fn.Pkg == nil || len(fn.Blocks) == 0 {
 			continue
 		}
-		if !g.Object().Exported() && fn.Pkg != g.Pkg {
+		if (g.Object() == nil || !g.Object().Exported()) && fn.Pkg != g.Pkg {
 			continue
 		}
 		scan(fn)
 	}
 	// AST initialiser
 	pkg := l.ByPath[g.Pkg.Pkg.Path()]
-	if pkg != nil {
+	if pkg != nil && g.Object() != nil {
 		obj := g.Object()
 		for _, file := range pkg.Syntax {
 			for _, d := range file.Decls {
